@@ -121,7 +121,8 @@ def r3(F, rep):
     adds = [n for n in tf.walk() if n["k"] == "CXXOperatorCallExpr" and n.get("op") == "+=" and
             X.key(X.call_args(n)[0], tf) == "this.ft" and X.key(X.call_args(n)[1], tf) == "this.fj"]
     if not adds:
-        raise AnalysisBroken("collect_cvc_total_forces: `ft += fj` not found")
+        rep.add("C07-R3", "jacobian-term", tf.loc(), "collect_cvc_total_forces() never adds the Jacobian term fj to ft", False,
+                detail="the reported total force lacks the Jacobian force for every variable", func=tf.q)
     for a in adds:
         gs = tf.cfg.real_guards(a)
         ks = [(X.re_strip(X.key(tf.nodes[c], tf, res)), p) for c, p in gs]
